@@ -1,7 +1,7 @@
 \* negative control: on_request_missing ignoring the permission index
 SPECIFICATION MCSpec
-CONSTANTS AlreadyChecked = TRUE PkPerAuthority = TRUE CheckSubject = TRUE CheckPermission = FALSE Window = 300 RespCap = 10 FitAll = 8
+CONSTANTS AlreadyChecked = TRUE PkPerAuthority = TRUE CheckSubject = TRUE CheckPermission = FALSE CommitBeforeSend = TRUE Window = 300 RespCap = 10 FitAll = 8
   Regs = {} Senders = {} TokIdx = {} MdIdx = {} AttIdx = {} MissIdx = {}
-  Ticks = {} OwnerPeers = {1, 2} KnownVals = {0, 1} AttSend = {} RegFirst = FALSE
-  MaxReg = 0 MaxMsg = 2 MaxTick = 0 MaxOwn = 2
+  Ticks = {} OwnerPeers = {1, 2} KnownVals = {0, 1} AttSend = {} RegFirst = FALSE FaultTabs = {}
+  MaxReg = 0 MaxMsg = 2 MaxTick = 0 MaxOwn = 2 MaxFault = 0
 INVARIANT TokensOnlyUpToPermitted
